@@ -21,6 +21,16 @@ def check(run):
     run.regenerate()
     run.lean_props(common.modules_for("C17"))
     rng = run.rng
+    # ---- correspondence (bitwise): the loop over rotors as generated from the method text, one workspace threaded through ----
+    from .. import kern, corr
+    crot = corr.rotor_strata(rng, 4 if quick else 12)
+    preps = run.attempt("corr:euler", kern.prep_rotors, run, crot, default={})
+    lists = []
+    for n in (1, 2, 3, 5):
+        for rep in range(2 if quick else 6):
+            pick = [crot[rng.randrange(len(crot))] for _ in range(n)]
+            lists.append((f"N={n}|" + "+".join(sorted({lab for lab, _ in pick}))[:60], [R for _, R in pick]))
+    run.attempt("corr:corr_Dloop", kern.corr_Dloop, run, [(3, 0), (5, 1)] if quick else [(0, 0), (3, 0), (5, 1), (8, 0), (12, 3)], lists, preps, poison=float("nan"))
     L = 4
     w = spherical.Wigner(L)
     wl = spherical.Wigner(L, mp_max=2)
